@@ -647,6 +647,9 @@ func nontermShape(u *UniCase) string {
 		// (i) a requirement installed under an alias equal to the dependent's own
 		// package name, on a dependency cycle back to that package.
 		{"alias-equals-dependent-on-cycle", stripSelfAlias},
+		// (iv) two packages on a dependency cycle install their requirement
+		// on the other under one and the same alias.
+		{"same-alias-for-different-packages-on-cycle", stripSharedAlias},
 		// (ii) a bundled copy that requires its bundling package and carries a
 		// nested bundled copy of that package.
 		{"bundle-requires-bundler-with-nested-copy", stripNestedBundlerCopy},
@@ -699,6 +702,38 @@ func requiresBack(u *UniCase, from, to string) bool {
 		}
 	}
 	return false
+}
+
+func stripSharedAlias(u *UniCase) (bool, *UniCase) {
+	c := cloneUni(u)
+	has := false
+	own := func(v uni.Version) string {
+		if v.DerivedFrom != "" {
+			return v.DerivedFrom
+		}
+		return v.Name
+	}
+	for i := range u.Versions {
+		for j, q := range u.Versions[i].Reqs {
+			if q.KnownAs == "" {
+				continue
+			}
+			for i2 := range u.Versions {
+				for _, q2 := range u.Versions[i2].Reqs {
+					if q2.KnownAs != q.KnownAs || q2.Name == q.Name || own(u.Versions[i2]) == own(u.Versions[i]) {
+						continue
+					}
+					// Each dependent is reachable from the other's requirement.
+					pi, pi2 := own(u.Versions[i]), own(u.Versions[i2])
+					if (q.Name == pi2 || requiresBack(u, q.Name, pi2)) && (q2.Name == pi || requiresBack(u, q2.Name, pi)) {
+						c.Versions[i].Reqs[j].KnownAs = ""
+						has = true
+					}
+				}
+			}
+		}
+	}
+	return has, c
 }
 
 func stripSelfAlias(u *UniCase) (bool, *UniCase) {
